@@ -559,8 +559,15 @@ func (b *BaseStore) Load(ctx context.Context, amount int) error {
 
 	// @FIXME(gfanton): chan progress should be created and close on ipfs-log
 	progress := make(chan ifacelog.IPFSLogEntry)
-	defer close(progress)
+	progressDone := make(chan struct{})
+	// Load returns only once the handler below has finished with the last
+	// entry, so that nothing updates the replication status afterwards
+	defer func() {
+		close(progress)
+		<-progressDone
+	}()
 	go func() {
+		defer close(progressDone)
 		// drain until the channel is closed: the fetcher sends without looking
 		// at the context, so leaving early would block it (and Load) for ever
 		for entry := range progress {
